@@ -48,6 +48,11 @@ class C(pg.Object):
     _record_event(self, field_updates)
 
 
+class D(A):
+  """Test class whose instances are born sealed."""
+  allow_symbolic_mutation = False
+
+
 OKEYS_B = {1: 'z', 2: 'w'}
 OKEYS_C = {1: 'm', 2: 'w'}
 PH = 150
@@ -67,6 +72,8 @@ def keymap(o):
 
 
 TDICT_SPEC = pg.typing.Dict([(pg.typing.StrKey(), pg.typing.Any())])
+# "tlist": symbolic members only, never empty: a leaf or a plain container is rejected (TypeError), so is emptying it (ValueError)
+TLIST_SPEC = pg.typing.List(pg.typing.Object(pg.Symbolic), min_size=1)
 
 
 _EVENT_SINK: Optional[List] = None
@@ -102,6 +109,8 @@ def new_root(kind: str):
     o = pg.Dict(value_spec=TDICT_SPEC, onchange_callback=_make_cb(holder))
   elif kind == 'list':
     o = pg.List(onchange_callback=_make_cb(holder))
+  elif kind == 'tlist':         # never empty: starts with one A() member
+    o = pg.List([A()], value_spec=TLIST_SPEC, onchange_callback=_make_cb(holder))
   elif kind == 'obj':
     o = A()
   elif kind == 'objb':
@@ -179,6 +188,9 @@ class Replayer:
     if v == 222:
       with pg.allow_writable_accessors(None), pg.as_sealed(None):
         return C()
+    if v == 223:
+      with pg.allow_writable_accessors(None), pg.as_sealed(None):
+        return D()
     if v == 220:
       # building the argument is not the operation under test: keep it out of the scoped overrides
       with pg.allow_writable_accessors(None), pg.as_sealed(None):
@@ -325,6 +337,8 @@ class Replayer:
     with pg.allow_writable_accessors(None), pg.as_sealed(None):
       if k == 'list':
         return pg.List(vals)
+      if k == 'tlist':
+        return pg.List(vals, value_spec=TLIST_SPEC)
       if k == 'dict':
         return pg.Dict({DKEYS[i + 1]: v for i, v in enumerate(vals)})
       return A(**{OKEYS[i + 1]: v for i, v in enumerate(vals)})
@@ -463,9 +477,9 @@ class Replayer:
 
   def spec_items(self, st, n):
     kind = st['kind'][n - 1]
-    if kind == 'list':
+    if kind in ('list', 'tlist'):
       return [(i, v) for i, v in enumerate(st['litems'][n - 1])]
-    inv = {'obj': OKEYS, 'objb': OKEYS_B, 'objc': OKEYS_C}.get(kind, DKEYS)
+    inv = {'obj': OKEYS, 'objd': OKEYS, 'objb': OKEYS_B, 'objc': OKEYS_C}.get(kind, DKEYS)
     return [(inv[k], v) for k, v in st['ditems'][n - 1]]
 
   def match_value(self, specv, pyv) -> bool:
@@ -521,7 +535,7 @@ class Replayer:
         todo.remove(n)
         progress = True
     if todo:
-      raise Divergence('bind', f'cannot bind spec nodes {todo}')
+      raise Divergence('bind', f'cannot bind spec nodes {todo} (the call returned {ret!r:.300})')
 
   def compare(self, st, out_kind, ret):
     spec_out = st['out']
@@ -542,8 +556,9 @@ class Replayer:
       for (ek, ev), (gk, gv) in zip(exp, got):
         if ek != gk or not self.match_value(ev, gv):
           raise Divergence('content', f'node {n}: spec {exp} impl {got!r}')
-      want_cls = {'dict': pg.Dict, 'tdict': pg.Dict, 'list': pg.List, 'obj': A, 'objb': B, 'objc': C}[kinds[n - 1]]
-      if kinds[n - 1] in ('dict', 'tdict') and (o.value_spec is not None) != (kinds[n - 1] == 'tdict'):
+      want_cls = {'dict': pg.Dict, 'tdict': pg.Dict, 'list': pg.List, 'tlist': pg.List, 'obj': A, 'objb': B, 'objc': C,
+                  'objd': D}[kinds[n - 1]]
+      if kinds[n - 1] in ('dict', 'tdict', 'list', 'tlist') and (o.value_spec is not None) != (kinds[n - 1] in ('tdict', 'tlist')):
         raise Divergence('content', f'node {n}: value spec binding {o.value_spec!r} but the model says {kinds[n - 1]}')
       if type(o) is not want_cls:
         raise Divergence('content', f'node {n}: class {type(o).__name__} expected {want_cls.__name__}')
@@ -602,7 +617,7 @@ class Replayer:
       o = self.obj[n]
       if bool(o.is_sealed) != st['sealed'][n - 1]:
         raise Divergence('flags', f'node {n}: is_sealed {o.is_sealed} spec {st["sealed"][n - 1]}')
-      if kinds[n - 1] in ('dict', 'list') and bool(o.accessor_writable) != st['accw'][n - 1]:
+      if kinds[n - 1] in ('dict', 'list', 'tlist') and bool(o.accessor_writable) != st['accw'][n - 1]:
         raise Divergence('flags', f'node {n}: accessor_writable {o.accessor_writable} spec {st["accw"][n - 1]}')
     # -- events
     if 'events' in self.clauses:
@@ -734,9 +749,9 @@ class Replayer:
 
     def build(n):
       k = kinds[n - 1]
-      if k == 'list':
+      if k in ('list', 'tlist'):
         items = [build(v) if 1 <= v <= n_nodes else leaf(v) for v in st['litems'][n - 1]]
-        kw = {}
+        kw = {'value_spec': TLIST_SPEC} if k == 'tlist' else {}
         if st['subs'][n - 1]:
           kw['onchange_callback'] = _make_cb(None)
         o = pg.List(items, accessor_writable=st['accw'][n - 1], **kw)
@@ -747,7 +762,7 @@ class Replayer:
           kw['onchange_callback'] = _make_cb(None)
         o = pg.Dict(items, accessor_writable=st['accw'][n - 1], **kw)
       else:
-        cls, km = {'obj': (A, OKEYS), 'objb': (B, OKEYS_B), 'objc': (C, OKEYS_C)}[k]
+        cls, km = {'obj': (A, OKEYS), 'objd': (D, OKEYS), 'objb': (B, OKEYS_B), 'objc': (C, OKEYS_C)}[k]
         kwargs = {km[kk]: (build(v) if 1 <= v <= n_nodes else leaf(v)) for kk, v in st['ditems'][n - 1]}
         kwargs = {a: b for a, b in kwargs.items() if not (b is pg.MISSING_VALUE or b == pg.MISSING_VALUE)}
         o = cls.partial(**kwargs) if k == 'objb' else cls(**kwargs)
@@ -760,7 +775,7 @@ class Replayer:
     # flags: seal() is deep, so apply top-down; children then override
     def seal_rec(n):
       self.obj[n].seal(st['sealed'][n - 1])
-      vals = st['litems'][n - 1] if kinds[n - 1] == 'list' else [kv[1] for kv in st['ditems'][n - 1]]
+      vals = st['litems'][n - 1] if kinds[n - 1] in ('list', 'tlist') else [kv[1] for kv in st['ditems'][n - 1]]
       for v in vals:
         if 1 <= v <= n_nodes:
           seal_rec(v)
@@ -836,10 +851,11 @@ class Replayer:
   def _replay(self, steps) -> Optional[dict]:
     st0 = steps[0].state
     for n, k in enumerate(st0['kind'], start=1):
-      if k != 'free':
+      if k != 'free' and st0['parent'][n - 1] == 0:
         self.obj[n] = new_root(k)
     try:
       try:
+        self.bind_new(st0, set(), None)
         self.compare(st0, 'ok', None)
       except Divergence as d:
         return {'step': 0, 'act': ['Init'], 'clause': d.clause, 'detail': d.detail}
